@@ -144,9 +144,10 @@ values disable the limit) -/
 def parseLimit (s : String) : Option Nat := (parseEnv s).map Flag.effectiveLimit
 
 /-- one letter per reader; a trailing `+` (each reader collects into its own reused ResourceMetrics) or `*` (all
-readers collect into ONE reused ResourceMetrics) only changes how the harness calls Collect -/
+readers collect into ONE reused ResourceMetrics) only changes how the harness calls Collect; `R` = observable callbacks
+are registered with Meter.RegisterCallback (`Sys.reg`) -/
 def parseTps (s : String) : Option (List Temporality) :=
-  (s.toList.filter fun c => c != '+' && c != '*').mapM fun c =>
+  (s.toList.filter fun c => c != '+' && c != '*' && c != 'R').mapM fun c =>
     if c == 'd' then some .delta else if c == 'c' then some .cumulative else none
 
 /-- no operation touches an instrument before its creation, late instruments are created at most once -/
@@ -251,6 +252,7 @@ structure RefSt where
   win : List (List (List (Attr × Int)))
   prev : List (List (List (Attr × Int)))
   cur : List (Nat × CSet × Int) := []
+  reg : Bool := false
   /-- (reader, expected metrics, all named predicates hold of the observed record) per collection -/
   out : List (Nat × List OMetric) := []
   /-- per collection: the stream index of each metric of `out`, in order -/
@@ -286,7 +288,7 @@ def refStep (L : Nat) (insts : List Inst) (pipes : List Pipe) (st : RefSt) : Op 
     | none => st
     | some p =>
       let w := (List.range insts.length).foldl (fun w j =>
-        if cbActive insts j then
+        if cbActive insts j st.reg then
           st.cur.foldl (fun w o => if o.1 == j then feed p j o.2.1 o.2.2 w else w) w
         else w) (st.win.getD r [])
       let pv := st.prev.getD r []
@@ -320,7 +322,7 @@ def windowsAt (L : Nat) (insts : List Inst) (pipes : List Pipe) (ops : List Op) 
       | none => acc
       | some p =>
         let w := (List.range insts.length).foldl (fun w j =>
-          if cbActive insts j then
+          if cbActive insts j st.reg then
             st.cur.foldl (fun w o => if o.1 == j then feed p j o.2.1 o.2.2 w else w) w
           else w) (st.win.getD r [])
         let ws := (List.range p.streams.length).filterMap fun idx =>
@@ -365,11 +367,11 @@ def linearizations : List (List String) → List (List (List String))
   | [a] => [[a]]
 
 /-- judge the observed records against ONE sequential order of the operations -/
-def judge (L : Nat) (tps : List Temporality) (insts : List Inst) (views : List View) (obs : List String)
+def judge (reg : Bool) (L : Nat) (tps : List Temporality) (insts : List Inst) (views : List View) (obs : List String)
     (opToks : List (List String)) : Option Verdict := do
       let ops ← opToks.mapM parseOp
-      let model := Sys.run L tps views insts ops
-      let sys0 := Sys.init L tps views insts
+      let model := Sys.run L tps views insts ops reg
+      let sys0 := Sys.init L tps views insts reg
       let mrecs := model.recs.map fun rc =>
         (rc.1, sortByScope (·.scope)
           (rc.2.map (canonMetric (match sys0.pipes[rc.1]? with | some p => p.tp | none => .cumulative))))
@@ -387,7 +389,7 @@ def judge (L : Nat) (tps : List Temporality) (insts : List Inst) (views : List V
       | none => pure { agree := false, spec := "FAIL", nontrivial := false, branches := "unparsed-observation",
                        model := " ".intercalate mstr }
       | some orecs =>
-        let st0 : RefSt := { win := sys0.pipes.map fun p => p.streams.map fun _ => [],
+        let st0 : RefSt := { reg := reg, win := sys0.pipes.map fun p => p.streams.map fun _ => [],
                              prev := sys0.pipes.map fun p => p.streams.map fun _ => [] }
         let ref := (ops.foldl (refStep L insts sys0.pipes) st0).out
         let wins := windowsAt L insts sys0.pipes ops st0
@@ -448,7 +450,8 @@ def judge (L : Nat) (tps : List Temporality) (insts : List Inst) (views : List V
                         (views.any fun v => v.matches (i.name.getD j) i && !incompatible i v.agg)
             | none => false) "valid-and-invalid-views-on-one-instrument" ++
           tagIf (ops.any fun o => match o with | .create _ => true | _ => false) "late-instrument" ++
-          tagIf ((List.range insts.length).any fun j => isAsync insts j && !cbActive insts j) "repeated-observable-callback-unused" ++
+          tagIf ((List.range insts.length).any fun j => isAsync insts j && !cbActive insts j reg) "repeated-observable-callback-unused" ++
+          tagIf (reg && insts.any (·.kind.async)) "register-callback" ++
           tagIf ((insts.map fun i => (i.name, i.scope)).eraseDups.length < insts.length) "same-name-in-meter" ++
           tagIf (insts.any fun i => i.scope ≥ 4) "scope-attributes" ++
           tagIf (tps.contains .delta) "delta" ++ tagIf (tps.contains .cumulative) "cumulative"
@@ -464,15 +467,15 @@ structure VarData where
   idxs : List (List Nat)
   wins : List (Nat × List (Agg × Temporality × Name × String × List (Attr × Int) × List (Attr × Int)))
 
-def variantData (L : Nat) (tps : List Temporality) (insts : List Inst) (views : List View)
+def variantData (reg : Bool) (L : Nat) (tps : List Temporality) (insts : List Inst) (views : List View)
     (opToks : List (List String)) : Option VarData := do
   let ops ← opToks.mapM parseOp
-  let model := Sys.run L tps views insts ops
-  let sys0 := Sys.init L tps views insts
+  let model := Sys.run L tps views insts ops reg
+  let sys0 := Sys.init L tps views insts reg
   let mrecs := model.recs.map fun rc =>
     (rc.1, sortByScope (·.scope)
       (rc.2.map (canonMetric (match sys0.pipes[rc.1]? with | some p => p.tp | none => .cumulative))))
-  let st0 : RefSt := { win := sys0.pipes.map fun p => p.streams.map fun _ => [],
+  let st0 : RefSt := { reg := reg, win := sys0.pipes.map fun p => p.streams.map fun _ => [],
                        prev := sys0.pipes.map fun p => p.streams.map fun _ => [] }
   let fin := ops.foldl (refStep L insts sys0.pipes) st0
   pure { mrecs := mrecs, ref := fin.out, idxs := fin.outIdx, wins := windowsAt L insts sys0.pipes ops st0 }
@@ -530,12 +533,13 @@ def stepLine (_ : Unit) (toks : List String) : Unit × Option Verdict :=
   | "hist" :: _ :: lim :: tps :: istr :: vstr :: rest =>
     let r : Option Verdict := do
       let L ← parseLimit lim
+      let reg := tps.contains 'R'
       let tps ← parseTps tps
       let insts ← (istr.splitOn ",").mapM parseInst
       let views ← if vstr == "-" then some [] else (vstr.splitOn ",").mapM parseView
       if !wellFormed ((istr.splitOn ",").map instLate) (splitBar rest) then none
       let variants := linearizations (splitBar rest)
-      let vs ← variants.mapM (judge L tps insts views obs)
+      let vs ← variants.mapM (judge reg L tps insts views obs)
       let forced := variants.length > 1
       let tag := fun (v : Verdict) (t : String) => { v with branches := if v.branches == "-" then t else v.branches ++ "," ++ t }
       -- the outcome must be that of SOME sequential order: prefer the line order, then any order the model and
@@ -549,7 +553,7 @@ def stepLine (_ : Unit) (toks : List String) : Unit × Option Verdict :=
           | some v => pure (tag v "forced-race,racer-first")
           | none =>
             -- no single order explains all streams: judge every stream against its own order
-            let vds ← variants.mapM (variantData L tps insts views)
+            let vds ← variants.mapM (variantData reg L tps insts views)
             match obs.mapM parseORec with
             | none => pure (tag v0 "forced-race")
             | some orecs =>
